@@ -4,6 +4,7 @@ import (
 	"fmt"
 	"log/slog"
 	"os"
+	"runtime"
 	"runtime/debug"
 	"sort"
 	"strings"
@@ -76,6 +77,7 @@ func (e *Env) Logf(format string, args ...any) {
 
 // Ev is the cheap form of Logf for hot loops: kind plus integers.
 func (e *Env) Ev(kind string, vals ...uint64) {
+	Tick()
 	h := e.hash
 	for i := 0; i < len(kind); i++ {
 		h = (h ^ uint64(kind[i])) * 0x100000001b3
@@ -107,6 +109,7 @@ func (e *Env) Sample(format string, args ...any) {
 
 // Fault counts an injected fault that actually fired.
 func (e *Env) Fault(kind string) {
+	Tick()
 	e.Faults[kind]++
 	e.nontrivial = true
 }
@@ -127,6 +130,7 @@ func (e *Env) AddEvals(n int) { e.Evals += n }
 // Case registers one distinct non-trivial case evaluated inside this run
 // (enumeration checks); it is identified by the hash of the given values.
 func (e *Env) Case(vals ...uint64) {
+	Tick()
 	h := uint64(0xcbf29ce484222325)
 	for _, v := range vals {
 		for k := 0; k < 8; k++ {
@@ -140,7 +144,23 @@ func (e *Env) Case(vals ...uint64) {
 }
 
 // Step counts one harness step.
-func (e *Env) Step() { e.Steps++ }
+func (e *Env) Step() { e.Steps++; Tick() }
+
+var ticks uint32
+
+// Tick is called from the harness's bookkeeping (events, faults, cases, steps, tape draws).
+// Every 64th call yields the processor. The test binaries run on one P and are built
+// without the runtime's wall-clock time slice (see the driver's runtime overlay), so a
+// harness loop that never blocks would otherwise starve the garbage collector's mark
+// worker: a cycle then never finishes, everything allocated meanwhile stays live and the
+// process grows by gigabytes. The yield is a deterministic scheduling event - it happens
+// at the same harness call in every execution of the same tape.
+func Tick() {
+	ticks++
+	if ticks%64 == 0 {
+		runtime.Gosched()
+	}
+}
 
 // Cleanup registers a function that runs when the run ends, also after Fail.
 func (e *Env) Cleanup(f func()) { e.cleanups = append(e.cleanups, f) }
